@@ -18,7 +18,7 @@ def cells(tier):
         for load in ("idle", "half-timeout-requests", "backlog"):
             out.append({"engine": "R", "what": "healthy", "kind": kind, "load": load})
     # a request of 0.85 x timeout that starts shortly after the previous heartbeat (sync: one heartbeat per accepted connection)
-    out.append({"engine": "R", "what": "healthy", "kind": "sync", "load": "late-long-request", "timeout": 8})
+    out.append({"engine": "R", "what": "healthy", "kind": "sync", "load": "late-long-request", "timeout": 12})
     return out
 
 
@@ -117,7 +117,7 @@ def run_case(case):
             time.sleep(T / 4.0 + 0.2)
             one("/pid")
             time.sleep(T / 4.0 - 0.3)
-            one("/slow/%.1f" % (0.9 * T))
+            one("/slow/%.2f" % (0.88 * T))
         elif load == "half-timeout-requests":
             while time.time() - t0 < 3 * T:
                 one("/slow/%.1f" % (T / 2.0))
